@@ -7,6 +7,16 @@ static GLOBAL: alloc::Counting = alloc::Counting;
 use serde_json::Value;
 use std::collections::HashSet;
 
+/// A corrupted or cyclic structure can make the SUT allocate without bound (conversion of a
+/// cyclic value, runaway expansion): die with an allocation failure at 6 GiB instead of
+/// taking the machine down. C19's children and C17's forked cases set their own limits.
+fn limit_address_space() {
+    let lim = libc::rlimit { rlim_cur: 6 << 30, rlim_max: 6 << 30 };
+    unsafe {
+        libc::setrlimit(libc::RLIMIT_AS, &lim);
+    }
+}
+
 fn usage() -> ! {
     eprintln!("usage: mwv check <ID> <quick|thorough> | mwv replay <file> [--raw] | mwv list");
     std::process::exit(2)
@@ -42,6 +52,7 @@ fn main() {
         "worker" => {
             // worker <ID> <tier> <seed> <shard> <nshards> <skip>
             sut::install_panic_hook();
+            limit_address_space();
             let tier = if args[3] == "thorough" { Tier::Thorough } else { Tier::Quick };
             let seed: u64 = args[4].parse().unwrap_or(0);
             let shard: usize = args[5].parse().unwrap_or(0);
@@ -59,6 +70,7 @@ fn main() {
         "replay" => {
             // replay <file> [--raw]: re-execute one recorded case, bypassing proptest.
             sut::install_panic_hook();
+            limit_address_space();
             if args.len() < 3 {
                 usage();
             }
